@@ -9,7 +9,8 @@
 (*     does not consume a message count;                                   *)
 (*   - every frame carries the client's module id and host id, the         *)
 (*     destination as given, the number of frames sent before it as        *)
-(*     msg_count, and - for send_message - the definition's version hash;  *)
+(*     msg_count, and - for send_message, also of a definition that has no *)
+(*     fields - the definition's version hash;                             *)
 (*   - a call on a disconnected client raises NotConnectedError and writes *)
 (*     nothing.                                                            *)
 (***************************************************************************)
@@ -20,7 +21,7 @@ CONSTANTS MaxModules, MaxHosts, MaxCalls, GenOn
 VARIABLES count, connected, wire, ncalls, last, hist
 vars == <<count, connected, wire, ncalls, last, hist>>
 
-Kinds == {"message", "signal", "forward"}
+Kinds == {"message", "message0", "signal", "forward"}     \* message0: send_message() of a definition without fields
 Dsts == {0, 1, MaxModules, MaxModules + 1, -1}
 DHosts == {0, MaxHosts, MaxHosts + 1, -1}
 
@@ -32,7 +33,7 @@ SendOp(kind, dst, dhost) ==
   ELSE IF kind # "forward" /\ (dst < 0 \/ dst > MaxModules) THEN [res |-> "raise", exc |-> "InvalidDestinationModule", frame |-> <<>>]
   ELSE IF kind # "forward" /\ (dhost < 0 \/ dhost > MaxHosts) THEN [res |-> "raise", exc |-> "InvalidDestinationHost", frame |-> <<>>]
   ELSE [res |-> "sent", exc |-> "",
-        frame |-> <<[kind |-> kind, dst |-> dst, dhost |-> dhost, count |-> count, stamped |-> kind = "message"]>>]
+        frame |-> <<[kind |-> kind, dst |-> dst, dhost |-> dhost, count |-> count, stamped |-> kind \in {"message", "message0"}]>>]
 
 Call(kind, dst, dhost) ==
   /\ ncalls < MaxCalls
